@@ -1,6 +1,7 @@
 (* Proofs about the model Conf/Conf.v (C17). *)
 From Coq Require Import List NArith ZArith Bool Lia ZifyBool ZifyNat ZifyN.
 From TarsV Require Import Base.Hex Gen.Consts Conf.Conf Conf.ConfSpec.
+From TarsV Require Endpoint.Parse Endpoint.ParseProofs.
 Import ListNotations.
 Open Scope bool_scope.
 Open Scope N_scope.
@@ -1401,6 +1402,85 @@ Section GrammarProofs.
     apply (lines_exact t _ R _ _ (analysis_path_domain v HV) HL).
   Qed.
 End GrammarProofs.
+
+(* ------------------------------------------------------------------------------------------- *)
+(* typed getters: the decimal rendering of an integer in range parses to that integer (fmt %d / strconv.Itoa form) *)
+Lemma dec_z_value : forall s acc, dec_z acc s = Endpoint.Parse.dec_value acc s.
+Proof.
+  induction s as [|c r IH]; intros acc; cbn [dec_z Endpoint.Parse.dec_value]; [reflexivity|].
+  unfold Endpoint.Parse.digit_of, is_digit, in_range. destruct (N.leb 48 c && N.leb c 57) eqn:E; [|reflexivity].
+  rewrite IH. f_equal. lia.
+Qed.
+
+Lemma parse_int_digit_head lo hi c r : 48 <= c <= 57 ->
+  parse_int lo hi (c :: r) = match dec_z 0 (c :: r) with
+                             | None => None
+                             | Some v => if ((lo <=? v) && (v <=? hi))%Z then Some v else None
+                             end.
+Proof.
+  intros Hc. unfold parse_int. destruct c as [|cp]; [lia|]. do 7 (try destruct cp as [cp|cp|]); try lia; reflexivity.
+Qed.
+
+Lemma parse_int_minus lo hi c r :
+  parse_int lo hi (45 :: c :: r) = match dec_z 0 (c :: r) with
+                                   | None => None
+                                   | Some v => if ((lo <=? - v) && (- v <=? hi))%Z then Some (- v)%Z else None
+                                   end.
+Proof. reflexivity. Qed.
+
+Theorem parse_int_dec lo hi z : (lo <= z <= hi)%Z -> parse_int lo hi (Endpoint.Parse.dec z) = Some z.
+Proof.
+  intros Hr. pose proof (DecimalZ.of_to z) as Hz. unfold Endpoint.Parse.dec.
+  destruct z as [|p|p]; cbn [Z.to_int] in *.
+  - cbn. destruct ((lo <=? 0)%Z && (0 <=? hi)%Z) eqn:E; [reflexivity|lia].
+  - unfold Z.of_int, Z.of_uint in Hz.
+    pose proof (DecimalPos.Unsigned.to_uint_nonnil p) as Hn.
+    pose proof (Endpoint.ParseProofs.uint_bytes_digits (Pos.to_uint p)) as Hd.
+    pose proof (Endpoint.ParseProofs.dec_value_uint (Pos.to_uint p)) as Hv. rewrite Hz in Hv.
+    destruct (Endpoint.Parse.uint_bytes (Pos.to_uint p)) as [|c r] eqn:E.
+    + exfalso. apply (Endpoint.ParseProofs.uint_bytes_nonnil _ Hn E).
+    + inversion Hd as [|? ? Hc _]; subst.
+      rewrite parse_int_digit_head by assumption. rewrite dec_z_value, Hv.
+      destruct ((lo <=? Z.pos p)%Z && (Z.pos p <=? hi)%Z) eqn:E2; [reflexivity|lia].
+  - unfold Z.of_int, Z.of_uint in Hz.
+    pose proof (DecimalPos.Unsigned.to_uint_nonnil p) as Hn.
+    pose proof (Endpoint.ParseProofs.dec_value_uint (Pos.to_uint p)) as Hv.
+    assert (Hp : Z.of_N (Pos.of_uint (Pos.to_uint p)) = Z.pos p) by lia. rewrite Hp in Hv.
+    destruct (Endpoint.Parse.uint_bytes (Pos.to_uint p)) as [|c r] eqn:E.
+    + exfalso. apply (Endpoint.ParseProofs.uint_bytes_nonnil _ Hn E).
+    + rewrite parse_int_minus, dec_z_value, Hv. destruct ((lo <=? - Z.pos p)%Z && (- Z.pos p <=? hi)%Z) eqn:E2; [reflexivity|lia].
+Qed.
+
+Lemma parse_int_factor s : exists o, forall lo hi,
+  parse_int lo hi s = match o with Some v => if ((lo <=? v) && (v <=? hi))%Z then Some v else None | None => None end.
+Proof.
+  unfold parse_int. match goal with |- context [let '(a, b) := ?M in _] => destruct M as [neg body] end.
+  destruct body as [|n body]; [exists None; reflexivity|].
+  destruct (dec_z 0 (n :: body)) as [w|]; [|exists None; reflexivity].
+  exists (Some (if neg then (- w)%Z else w)). reflexivity.
+Qed.
+
+Theorem parse_int_out_of_range lo hi z : ~ (lo <= z <= hi)%Z -> parse_int lo hi (Endpoint.Parse.dec z) = None.
+Proof.
+  intros Hr. destruct (parse_int_factor (Endpoint.Parse.dec z)) as [o Ho].
+  pose proof (parse_int_dec (Z.min lo z) (Z.max hi z) z ltac:(lia)) as H. rewrite Ho in H. rewrite Ho.
+  destruct o as [v|]; [|reflexivity].
+  destruct ((Z.min lo z <=? v)%Z && (v <=? Z.max hi z)%Z); [|discriminate]. inversion H; subst.
+  destruct ((lo <=? z)%Z && (z <=? hi)%Z) eqn:E; [lia|reflexivity].
+Qed.
+
+Theorem int_parsed : forall z,
+  ((-9223372036854775808 <= z <= 9223372036854775807)%Z -> atoi (Endpoint.Parse.dec z) = Some z) /\
+  ((-2147483648 <= z <= 2147483647)%Z -> atoi32 (Endpoint.Parse.dec z) = Some z) /\
+  (~ (-2147483648 <= z <= 2147483647)%Z -> atoi32 (Endpoint.Parse.dec z) = None) /\
+  (~ (-9223372036854775808 <= z <= 9223372036854775807)%Z -> atoi (Endpoint.Parse.dec z) = None).
+Proof.
+  intros z. repeat split; intros H; first [apply parse_int_dec; exact H | apply parse_int_out_of_range; exact H].
+Qed.
+
+Theorem grammar_lines_read : forall ls b, Forall gline_ok ls ->
+  content_lines (gtext ls b) = flat_map gline_text ls /\ map line_kv (flat_map gline_text ls) = flat_map gline_kv ls.
+Proof. intros ls b H. split; [apply gtext_read; exact H | apply (glines_read ls H)]. Qed.
 
 (* ------------------------------------------------------------------------------------------- *)
 (* a concrete document satisfying every hypothesis of the theorems above, and the theorems applied to it *)
